@@ -21,7 +21,10 @@
    "Emits change notifications only for values that actually changed" (coq/PropNotify.v): in ANY world a Binding::evaluate whose result
    equals the current value calls no observer and changes no property; in worlds of evaluator-driven bindings an evaluateAll changes no
    property that is not registered with it, and if it leaves every registered property with the value it had it has called no observer.
-   PARTIAL: mixed worlds (immediate and evaluator-driven bindings together, acting observers, replacement and destruction) are covered by the extracted checker PropCheck.check_c06_after_evalall on every evaluateAll of every generated
+   MIXED worlds (immediate and evaluator-driven bindings together; coq/PropMixedLazy.v, coq/PropMixedPass.v): the caches of the evaluator-driven
+   trees are right for the current values in every world a growing mixed network reaches, every evaluation is exact, and ONE evaluateAll
+   brings every registered bound property up to date (C06_mixed_network_one_pass).
+   PARTIAL: acting observers, direct rebinding and moves/destruction in mixed worlds are covered by the extracted checker PropCheck.check_c06_after_evalall on every evaluateAll of every generated
    history and by correspondence. *)
 From KDB Require Import Util PropDefs PropProofs.
 From KDB Require PropAbs PropAbsLazy PropCheck PropSim PropSimLazy PropGrowLazy PropGrowMore PropGrowLazyMore PropReg PropMoveLazy PropNotify PropMixedLazy PropMixedPass PropLink.
@@ -368,12 +371,28 @@ Theorem C06_mixed_one_pass :
     PropMixedLazy.ML fn w -> PropMixedPass.RKI rk w -> PropReg.REGI w -> lookup (w_bevs w) e = Some id -> id <> 0 ->
     nth_error (w_evps w) id = Some st -> PropMixedPass.rord rk w (ep_registry st) 0 ->
     step1 fn rtl fuel w (BevEvalAll e) = (w', None) ->
-    PropMixedLazy.ML fn w' /\ PropLinkBasics.views_eq w w' /\
+    PropMixedLazy.ML fn w' /\ PropLinkBasics.views_eq w w' /\ w_evps w' = w_evps w /\
     forall rid b, In (rid, b) (ep_registry st) ->
       exists x T q, get_bind w' b = Some x /\ PropSim.abs_tree (b_root x) = Some T /\ b_target x = Some q /\ PropAbs.clean T /\
                     PropMixedLazy.envof w' q = PropAbs.den (PropSim.F1 fn) (PropSim.F2 fn) (PropSim.F3 fn) (PropMixedLazy.envof w') T.
 Proof. exact PropMixedPass.mixed_evalall_one_pass. Qed.
 Print Assumptions C06_mixed_one_pass.
+
+(* ... and in a growing mixed network such a rank exists - creation order (PropMixedPass.RANK_reachable) -, so, end to end: after ANY
+   history of new properties, assignments, reads, plain observers, evaluator objects, fresh properties bound immediately or through an
+   explicit evaluator (over any existing properties) and evaluateAll calls, ONE evaluateAll of an explicit evaluator makes every property
+   bound through it equal to its expression over the values after the pass *)
+Theorem C06_mixed_network_one_pass :
+  forall fn rtl fuel ops e id st w',
+    PropMixedLazy.run5_ok fn rtl fuel world0 ops ->
+    lookup (w_bevs (run fn rtl fuel ops)) e = Some id -> id <> 0 -> nth_error (w_evps (run fn rtl fuel ops)) id = Some st ->
+    step1 fn rtl fuel (run fn rtl fuel ops) (BevEvalAll e) = (w', None) ->
+    PropMixedLazy.ML fn w' /\
+    forall rid b, In (rid, b) (ep_registry st) ->
+      exists x T q, get_bind w' b = Some x /\ PropSim.abs_tree (b_root x) = Some T /\ b_target x = Some q /\ PropAbs.clean T /\
+                    PropMixedLazy.envof w' q = PropAbs.den (PropSim.F1 fn) (PropSim.F2 fn) (PropSim.F3 fn) (PropMixedLazy.envof w') T.
+Proof. exact PropMixedPass.mixed_reachable_one_pass. Qed.
+Print Assumptions C06_mixed_network_one_pass.
 
 (* non-vacuity: 1 = f1(0) immediate, 2 = f2(1) through the evaluator, 3 = f3(2) immediate: after the assignment 1 is up to date at once,
    2 and 3 wait; one evaluateAll brings 2 and, through it, 3 up to date *)
